@@ -92,6 +92,9 @@ func (m *Machine) mapMutate(mo *MapObj, synchronised bool) {
 	if !synchronised && m.watching && mo.epoch < m.watchEpoch && m.syn.inOnce == 0 {
 		panic(&pathEnd{endWrite, "write to pre-existing map"})
 	}
+	if m.watching && mo.epoch == 0 {
+		panic(&pathEnd{endWrite, "synchronised write to a package-level map after initialisation"})
+	}
 	if mo.epoch == 0 && m.initDone && mo.snapGen != m.syn.gen {
 		mo.snapGen = m.syn.gen
 		m.mapTrail = append(m.mapTrail, mapSnap{mo, append([]Value(nil), mo.keys...), append([]Value(nil), mo.vals...)})
@@ -217,6 +220,9 @@ func (m *Machine) syncStore(p PtrV, v Value) {
 		m.unsupported("atomic store through nil/symbolic pointer")
 	}
 	save := m.watching
+	if save && p.c.epoch == 0 {
+		panic(&pathEnd{endWrite, "atomic store to package-level state after initialisation"})
+	}
 	m.watching = false
 	m.store(p, v)
 	m.watching = save
